@@ -1591,6 +1591,7 @@ def _run(ctx):
         "plus the neighbourhood of every catalogue entry in each 16-bit field (raw RCP opcode = UnknownService pass-through, LP opcode / "
         "result, the four fields of the repeater broadcast status), and every value that differs from the catalogue (old, new, each +-1) in "
         "every field of every kind, as raw opcode, option type and S/N. "
+        " ROUND 6, READ-ONLY CALLS: observer-style calls found by introspection on the live objects (repr / str / len / bool / == / hash / copy / every attribute, debug(), get_* / is_* / has_* / match_* without auto-create, the log helpers, on every library object reachable) are interleaved into histories: the same history runs without and with them in fresh objects; each call must leave the deep picture of the objects, their class / module data and the stubs' counters unchanged, every answer, the final state and a final sweep through the whole catalogue (made, and itself checked, at the end of every such history) must be identical, and the model is driven with the history without the calls; reviewed exclusions (calls that advance by design) are listed in harness/ro_calls.py EXCLUDED. "
         "The oracle reads the datagram as it was built, not the library's parse; the model input is the "
         "abstraction of what the real HSTRP.from_bytes returns. Non-trivial = the datagram parses / an event; distinct = "
         "distinct (configuration, start state, operation sequence)"
